@@ -172,3 +172,30 @@ def roundtrip_cached_envelope(c, env_pos, hash_name, flavour, layout):
         out = c.call_async(dpapi_ng.async_ncrypt_unprotect_secret, blob, cache=other)
     c.check(seq_eq(out, pt), "cached envelope: unprotect(protect(x)) == x")
     return True
+
+
+@harness(P, per_job=True, params=lambda tier: [dict(layout=l, flavour=f, hi=h) for l, f in (("envelope", "sync"), ("trailing", "async")) for h in ([1 << 17] if tier == "quick" else [1 << 17, (1 << 24) + 5])],
+         max_steps=3000000,
+         bounds="plaintext whose LENGTH is a solver variable in [0, 2^17] (thorough also [0, 2^24+5]; opaque content): protect -> unprotect returns the plaintext for every length, i.e. "
+         "across every DER length-form boundary of the nested CMS fields; nonce mode, SHA256, fixed clock, both layouts, sync / async",
+         outside="content of long plaintexts (opaque); other configurations (listed-length harnesses)", must_reach=("symbolic length: unprotect(protect(x)) == x",))
+def roundtrip_symlen(c, layout, flavour, hi):
+    lo, _ = e2e.window(361, 9, 6, -5, -5)
+    w = e2e.new_world(c, lo, lo)
+    pt, L = c.blob("pt", 0, hi)
+    root = c.bytes("root", 64)
+    cache = e2e.loaded_cache(c, root, "SHA256")
+    sid = e2e.SIDS[1]
+    if flavour == "sync":
+        blob = c.call(dpapi_ng.ncrypt_protect_secret, pt, sid, root_key_identifier=e2e.RK, cache=cache)
+    else:
+        blob = c.call_async(dpapi_ng.async_ncrypt_protect_secret, pt, sid, root_key_identifier=e2e.RK, cache=cache)
+    if layout == "trailing":
+        blob = c.call(c.call(_blob.DPAPINGBlob.unpack, blob).pack, blob_in_envelope=False)
+    cache2 = e2e.loaded_cache(c, root, "SHA256")
+    if flavour == "sync":
+        out = c.call(dpapi_ng.ncrypt_unprotect_secret, blob, cache=cache2)
+    else:
+        out = c.call_async(dpapi_ng.async_ncrypt_unprotect_secret, blob, cache=cache2)
+    c.check(seq_eq(out, pt), "symbolic length: unprotect(protect(x)) == x")
+    return True
